@@ -410,6 +410,12 @@ def run(ctx):
             reported = any(pc.pos_dominates(q, pos) for q in oe) and any(c.endswith('from_utf8_lossy') for c in cs)
         C.check(une_ok or reported, 'C01-SIB-reader', 'parse_character_data|String#%d|unescaped-or-reported' % n_s, 'parse_character_data stores text that was not passed through unescape_string (and no error was reported on that path): entities stay encoded in the model and are escaped again on output (&amp; grows to &amp;amp; on every load/save cycle)',
                 pc.where(pos), sample={'site': pc.where(pos), 'through_unescape_string': une_ok, 'reported_fallback': (not une_ok) and reported})
+        # ... and it is the decoded text as it is: nothing is cut off AFTER decoding (the input is trimmed as bytes, by
+        # trim_byte_string, before it is decoded; a str::trim on the decoded text also removes U+00A0 / U+3000 and white space that
+        # the document wrote as a character reference)
+        cut = sorted(c.rsplit('::', 1)[-1] for c in cs if re.search(r'<impl str>::(trim\w*|strip_\w+|split\w*|get|get_unchecked)$|String::(truncate|pop|drain|remove|retain)$|Index<.*Range', c))
+        C.check(not cut, 'C01-SIB-reader', 'parse_character_data|String#%d|decoded-text-stored-uncut' % n_s, 'parse_character_data shortens the decoded text before storing it (%s): characters of the value that the document contains '
+                '(white space written as a character reference, U+00A0) are lost on load although only insignificant white space may be removed' % ', '.join(cut), pc.where(pos))
     C.floor('C01-SIB-reader.string-sites', n_s, 3)
     # whitespace-preserving kind: the text that is converted in the String arm can be the untrimmed input
     pw = [pos for pos, tt in pc.iter_terms() if tt['k'] == 'switch' and is_local_op(tt['d']) and 'CharacterDataSpec.preserve_whitespace' in '|'.join(deep_sources(pc, tt['d'], depth=8)[2]) or (tt['k'] == 'switch' and is_local_op(tt['d']) and any('preserve_whitespace' in f for f in deep_sources(pc, tt['d'], depth=8)[2]))]
